@@ -2,7 +2,7 @@
    - the metadata normalisation every Table constructor call performs,
    - orientation (operate on rows whatever the requested axis is),
    - sorted(...) over id codes (the harness gives order preserving codes),
-   - sort_order on the column axis, filtering by a boolean mask. *)
+   - sort_order on the column axis. *)
 From Coq Require Import List Arith ZArith Lia Bool.
 From BiomV Require Import Base.Tree Base.ListUtil Base.Matrix Model.Table.
 Import ListNotations.
@@ -58,12 +58,3 @@ Definition sort_order_cols (order : list Z) (t : table) : table :=
   mkT (oids t) order (perm_cols fancy (mat t)) (ctor_md (omd t))
       (ctor_md (option_map (fun l => map (fun j => nth j l md_none) fancy) (smd t)))
       (ttype t).
-
-(* ---- filter by a mask (table.py:2371-2399 with _filter.pyx:89-150): ids, vectors and
-   metadata are compressed by the mask; metadata None stays None, a tuple stays a tuple ---- *)
-Definition filter_rows (keep : list bool) (t : table) : table :=
-  mkT (select keep (oids t)) (sids t) (sel_rows keep (mat t))
-      (option_map (select keep) (omd t)) (smd t) (ttype t).
-Definition filter_cols (keep : list bool) (t : table) : table :=
-  mkT (oids t) (select keep (sids t)) (sel_cols keep (mat t))
-      (omd t) (option_map (select keep) (smd t)) (ttype t).
